@@ -100,13 +100,7 @@ Section Monitor.
     | _ => EText zero_time
     end.
 
-  (* every tracked name once (a name listed twice is still one tracked name) *)
-  Fixpoint dedup (seen : list str) (ms : list str) : list str :=
-    match ms with
-    | [] => []
-    | m :: r => if mem m seen then dedup seen r else m :: dedup (m :: seen) r
-    end.
-
+  (* every tracked name once (a name listed twice is still one tracked name): [dedup] of the model file *)
   Definition exp_line (ms : list str) (l : str) : list erec :=
     match decode l with
     | JObj kvs => flat_map (fun m => match jlookup m kvs with
